@@ -181,6 +181,8 @@ def attribute(ck, pid, traces, fails, extra_props=()):
         for cl in f["clauses"]:
             if tr["meta"].get("untracked") and cl in UNTRACKED_CLAUSES:
                 continue  # likelihood evaluated in other processes: provenance / evaluation counts unobservable
+            if cl == "NoRaise" and (tr["meta"].get("conf") or {}).get("pool") == "faulty":
+                continue  # the harness' own pool failed on purpose: letting that error out is legitimate
             prop = psrun.CLAUSE_PROPERTY.get(cl)
             props = {prop} if prop else set()
             if cl == "RW_RefAgrees" and (tr["meta"].get("conf") or {}).get("support"):
